@@ -7,7 +7,11 @@ patch="$1"; id="$2"; tier="${3:-quick}"; suite="${4:-}"
 wt=$(mktemp -d /tmp/mutwt.XXXXXX); rmdir "$wt"
 git -C /repo worktree add -q --detach "$wt" HEAD || exit 3
 trap 'git -C /repo worktree remove --force "$wt" 2>/dev/null; rm -rf "$wt"' EXIT
-if ! git -C "$wt" apply "$patch"; then echo "PATCH DOES NOT APPLY"; exit 3; fi
+if ! git -C "$wt" apply "$patch" 2>/dev/null; then
+  # a later fix: commit touched the same lines: merge
+  if ! git -C "$wt" apply --3way "$patch" 2>/dev/null || git -C "$wt" diff --name-only --diff-filter=U | grep -q .; then echo "PATCH DOES NOT APPLY"; exit 3; fi
+  git -C "$wt" reset -q
+fi
 export GOFLAGS=-mod=mod GOPROXY=off GOSUMDB=off GOTOOLCHAIN=local
 if [ "$suite" = "--suite" ]; then
   (cd "$wt" && go build ./... && go test -vet=off -count=1 ./... 2>&1 | grep -v "no test files" | tail -5) || echo "SUITE FAILED"
